@@ -21,7 +21,7 @@ from ..sx.sym import ctx
 from ..shims import scipy_shim as SS
 from ..shims.np_shim import SymArray
 from .common import (P, box, evalf, model_floats, not_close, paths, rng, K, Q, Sym, lift, simp, fresh, uf_callable)
-from .resv import FluidStub, load_reservoir, times, rows_of
+from .resv import FluidStub, load_reservoir, times, rows_of, policy_exact
 from .c01 import _DuckFluid, _real_run
 
 
@@ -273,7 +273,32 @@ def _run(mod, cls, nx, nt, policy, schedule=False):
     return r, fluid, t
 
 
-def job_rows(job, cls, nx, nt, schedule=False, reachable=False, tdtype="f8"):
+def replay_reused_fluid(model, nx=4):
+    """Real runs: a SinglePhaseReservoir simulated with one fluid, its `fluid` (and initial pressure) replaced, simulated
+    again: every stored level of the second run is the backward-Euler update of the previous one with the diffusivity
+    of the fluid the object carries now."""
+    import warnings
+    import numpy as np
+    import pandas as pd
+    from bluebonnet.flow import FlowProperties
+    from bluebonnet.flow import reservoir as rr
+    pvt = pd.read_csv(loader.REPO + "/tests/data/pvt_gas.csv").rename(columns={"P": "pressure", "Z-Factor": "z-factor", "Cg": "compressibility",
+                                                                        "Viscosity": "viscosity", "Density": "density"})
+    t = np.linspace(0, 1.0, 12) ** 2
+    n = max(nx, 8)
+    with warnings.catch_warnings():
+        warnings.simplefilter("ignore")
+        fa, fb = FlowProperties(pvt, 8000.0), FlowProperties(pvt, 5000.0)
+        r = rr.SinglePhaseReservoir(n, 1000.0, 8000.0, fa)
+        r.simulate(t)
+        r.fluid, r.pressure_initial = fb, 5000.0
+        r.simulate(t)
+    problems = _rows_problems([], np.asarray(r.pseudopressure, float), t, n, fb, cls="SinglePhaseReservoir")
+    return bool(problems), {"what": "SinglePhaseReservoir re-used after its fluid was replaced (p_i 8000 -> 5000): " + ("; ".join(problems[:2]) or "levels are backward-Euler updates"),
+                            "inputs": {}}
+
+
+def job_rows(job, cls, nx, nt, schedule=False, reachable=False, tdtype="f8", reused_fluid=False):
     """reachable=False: every level is havoc'd inside C01's bounds (covers any number of steps; a counterexample may
     start from a level no run reaches and is then not confirmed by the replay).  reachable=True: the levels are the
     exact solutions from the real initial state (the first nt-1 steps only), so a counterexample is a real run."""
@@ -282,7 +307,7 @@ def job_rows(job, cls, nx, nt, schedule=False, reachable=False, tdtype="f8"):
     job.stub("linear solve: capturing stub (records A, b, keyword arguments; returns an arbitrary vector - every level is havoc'd, "
              "bounded above by the initial value as C01 establishes)", "scipy.sparse.diags: exact dense model", "fluid*: contract stub")
     job.bound(rows_nx=nx, rows_steps=nt - 1)
-    tag = f"{cls}[nx={nx},steps={nt - 1}{',schedule' if schedule else ''}{',from the initial state' if reachable else ''}{',integer time grid' if tdtype != 'f8' else ''}]"
+    tag = f"{cls}[nx={nx},steps={nt - 1}{',schedule' if schedule else ''}{',from the initial state' if reachable else ''}{',integer time grid' if tdtype != 'f8' else ''}{',object re-used after its fluid was replaced' if reused_fluid else ''}]"
     if reachable:
         job.solve_defaults = {"elim": True}
     hold = {}
@@ -325,13 +350,20 @@ def job_rows(job, cls, nx, nt, schedule=False, reachable=False, tdtype="f8"):
         hold["hi"] = fluid.m_i
         hold["fluid"] = fluid
         r = mod.SinglePhaseReservoir(Q(nx), fresh("pf"), fresh("pi", pos=True), fluid)
+        if reused_fluid:
+            # the object has already been run with another fluid; anything it kept from that run must not steer this one
+            r.fluid = FluidStub("old")
+            SS.LinSolve.reset(policy_exact())
+            r.simulate(t)
+            SS.LinSolve.reset(pol)
+            r.fluid = fluid
         if schedule:
             r.simulate(t, pressure_fracface=SymArray([fresh(f"pfs{k}") for k in range(nt)], "f8"))
         else:
             r.simulate(t)
         return r, fluid, t, list(SS.LinSolve.calls)
 
-    rp = (replay_rows, {"cls": cls, "nx": nx, "nt": nt, "schedule": schedule, "tdtype": tdtype})
+    rp = (replay_reused_fluid, {"nx": nx}) if reused_fluid else (replay_rows, {"cls": cls, "nx": nx, "nt": nt, "schedule": schedule, "tdtype": tdtype})
     for k, pr in enumerate(paths(job, run, [], max_paths=16)):
         if pr.exc is not None:
             job.errors.append(f"{tag} raised {pr.exc!r}")
@@ -485,6 +517,8 @@ def jobs(tier):
         for nx in ((3, 4) if tier == "quick" else (3, 4, 5, 6)):
             out.append((f"rows-reach-{cls[:6]}-{nx}", lambda j, c=cls, n=nx: job_rows(j, c, n, 3, schedule=(c != "IdealReservoir"), reachable=True)))
         out.append((f"rows-reach-inttime-{cls[:6]}-3", lambda j, c=cls: job_rows(j, c, 3, 3, schedule=False, reachable=True, tdtype="i8")))
+        if cls != "IdealReservoir":
+            out.append(("rows-reach-reused-fluid-3", lambda j: job_rows(j, "SinglePhaseReservoir", 3, 3, reachable=True, reused_fluid=True)))
         out.append((f"tolerance-{cls[:6]}", lambda j, c=cls: job_tolerance(j, c)))
         out.append((f"flag-{cls[:6]}", lambda j, c=cls: job_flag(j, c)))
         for big in ((201, 401) if tier == "quick" else (201, 401, 1001)):
